@@ -368,9 +368,9 @@ Proof.
   unfold ir_ok. rewrite andb_true_iff. intros [H1 H2]. apply nodupb_spec in H1. split; [exact H1|].
   unfold list_nat_eqb in H2. destruct (list_eq_dec Nat.eq_dec (sort newir) (ir_expected ir fs alpha)) as [E|]; [|discriminate].
   intros z. rewrite <- (sort_In z newir), E. unfold ir_expected. rewrite sort_In, in_app_iff, !filter_In. cbv beta.
-  destruct (mem z fs) eqn:Ef; destruct (mem z alpha) eqn:Ea; destruct (mem z ir) eqn:Ei;
-    try apply mem_In in Ef; try apply mem_In in Ea; try apply mem_In in Ei;
-    try apply mem_false in Ef; try apply mem_false in Ea; try apply mem_false in Ei;
+  destruct (mem z fs) eqn:Ef; [apply mem_In in Ef|apply (proj1 (mem_false _ _)) in Ef];
+    (destruct (mem z alpha) eqn:Ea; [apply mem_In in Ea|apply (proj1 (mem_false _ _)) in Ea]);
+    (destruct (mem z ir) eqn:Ei; [apply mem_In in Ei|apply (proj1 (mem_false _ _)) in Ei]);
     simpl; intuition congruence.
 Qed.
 
